@@ -290,6 +290,83 @@ theorem running_uri_roundtrip (s : St β) (c : StartCfg) (hc : c.accepted = true
   rw [start_accepted H s c hc]
   exact ⟨_, u, rfl, hu, hd⟩
 
+/-! ### restarts during which stored values cannot be read (F64; model `startF`, `runF` in HcModel/Config.lean) -/
+
+/-- One restart during which ANY of the four reads (id, configuration number, content hash, the accessory's own entity)
+    fail with an error other than "no such value": nothing stored changes — the id, the key pair, every pairing, the
+    configuration number and the hash are what they were —, and the constructor returns the error instead of a transport.
+    Without a failing read the restart is the ordinary one. -/
+theorem restart_with_read_errors_changes_nothing (s : St β) (id key : Nat) (hi : Identity id key s)
+    (c : StartCfg) (hc : c.accepted = true) (f : Faults) :
+    (f.load = true ∨ f.entity = true →
+      (startF H s c f).1 = s ∧ (startF H s c f).2 = none) ∧
+    (f.load = false ∧ f.entity = false → startF H s c f = ((start H s c).1, some .started)) := by
+  have hs := (start_out_started H s c).mpr hc
+  constructor
+  · intro hf
+    refine ⟨?_, ?_⟩
+    · rw [startF_identity H hi c f]
+      rcases hf with h | h <;> simp [h]
+    · unfold startF
+      rw [if_pos hs]
+      rcases hf with h | h
+      · simp [h]
+      · by_cases hl : f.load = true <;> simp [hl, h]
+  · intro ⟨hl, he⟩
+    unfold startF
+    simp [hs, hl, he]
+
+/-- Over EVERY history of restarts — each with any set of failing reads —, pairings, removals, value changes and stops:
+    the stored device id and key pair are the ones of the beginning, a later restart whose reads succeed runs under
+    them, and the stored configuration number never went down. -/
+theorem identity_persists_under_read_errors (s : St β) (id key : Nat) (hi : Identity id key s)
+    (hist : List (Step × Faults)) (c : StartCfg) (hc : c.accepted = true) :
+    (runF H s hist).store.uuid = some id ∧
+    lookup id (runF H s hist).store.entities = some ⟨id, key, some key⟩ ∧
+    ∃ r, (startF H (runF H s hist) c {}).1.run = some r ∧ r.id = id ∧ r.devPub = key ∧ r.devPriv = some key := by
+  have h1 := runF_identity H hi hist
+  refine ⟨h1.uuid, h1.dev, ?_⟩
+  rw [startF_identity H h1 c {}]
+  simp only [hc, Faults.load, Bool.or_self, and_self, if_true]
+  rw [start_identity H h1 c hc]
+  exact ⟨_, rfl, rfl, rfl, rfl⟩
+
+/-- a restart never lowers the stored configuration number, whichever reads fail -/
+theorem config_number_never_decreases_under_read_errors (s : St β) (id key : Nat) (hi : Identity id key s)
+    (c : StartCfg) (f : Faults) (v : Nat) (hv : s.store.version = some v) :
+    ∃ v', (startF H s c f).1.store.version = some v' ∧ v ≤ v' := by
+  rw [startF_identity H hi c f]
+  split
+  · rename_i h
+    rw [start_identity H hi c h.1]
+    exact ⟨_, rfl, by simpa [hv] using bump_ge s.store.configHash (H (strip c.db)) v⟩
+  · exact ⟨v, hv, Nat.le_refl v⟩
+
+-- the hypotheses are met by the state a first start and a pairing leave behind, and a faulty restart is refused there
+example :
+    let c : StartCfg := ⟨dec8 102003, [], 8, false, 10000, 20000, .obj []⟩
+    let s := run (fun _ => 0) ({} : St Nat) [.start c, .pair 1 501]
+    (startF (fun _ => 0) s { c with freshId := 10001, freshKey := 20001 } { uuid := true }).2 = none ∧
+    (startF (fun _ => 0) s { c with freshId := 10001, freshKey := 20001 } { uuid := true }).1.store.uuid = some 10000 := by
+  decide
+
+/-- F64 before the repair (`startFOld`: an unreadable value is a missing value). One restart during which the id cannot
+    be read stores a NEW id and a new key pair; the old entity stays behind and counts as a controller pairing, so the
+    accessory is no longer discoverable though no controller was ever paired. One restart during which only the entity
+    cannot be read stores a new key pair over the old one. One during which the number cannot be read starts again at 1. -/
+theorem restart_read_error_unfixed_refuted :
+    let c : StartCfg := ⟨dec8 102003, [], 8, false, 10000, 20000, .obj []⟩
+    let c' : StartCfg := { c with freshId := 10001, freshKey := 20001 }
+    let s := run (fun _ => 0) ({} : St Nat) [.start c]
+    let Hh : J → Nat := fun | .obj [] => 0 | _ => 1
+    ((startFOld (fun _ => 0) s c' { uuid := true }).1.store.uuid = some 10001 ∧
+     (startFOld (fun _ => 0) s c' { uuid := true }).1.run.map (·.discoverable) = some false) ∧
+    (lookup 10000 (startFOld (fun _ => 0) s c' { entity := true }).1.store.entities = some ⟨10000, 20001, some 20001⟩) ∧
+    ((run Hh (run Hh ({} : St Nat) [.start c]) [.start { c with db := .obj [(1, .leaf 0)] }]).store.version = some 2 ∧
+     (startFOld Hh (run Hh ({} : St Nat) [.start c, .start { c with db := .obj [(1, .leaf 0)] }])
+        { c with db := .obj [(1, .leaf 0)] } { version := true }).1.store.version = some 1) := by
+  decide
+
 end restart
 
 open Hc.FirstStart in
